@@ -5,6 +5,7 @@ import (
 	"go/constant"
 	"go/token"
 	"go/types"
+	"os"
 	"sort"
 	"strings"
 
@@ -632,40 +633,109 @@ func (c *Ctx) foreignBoundSliceRule(rule string, fns []*ssa.Function) int {
 				walk(v, 0)
 				return out
 			}
-			// comparison sites
+			// comparison sites: those of f and those of same-package helpers f calls at one site, with the
+			// helper's parameters translated to the arguments of that call
 			type site struct{ atoms []string }
 			siteOf := map[ssa.Value]int{}
 			var sites []site
-			for _, b := range f.Blocks {
-				iff, ok := b.Instrs[len(b.Instrs)-1].(*ssa.If)
-				if !ok {
-					continue
+			helpers := map[*ssa.Function]ssa.CallInstruction{}
+			multi := map[*ssa.Function]bool{}
+			for _, call := range callsIn(f, func(call ssa.CallInstruction) bool {
+				g := call.Common().StaticCallee()
+				return g != nil && g != f && g.Blocks != nil && g.Pkg == f.Pkg
+			}) {
+				g := call.Common().StaticCallee()
+				if _, dup := helpers[g]; dup {
+					multi[g] = true
 				}
-				cond := iff.Cond
-				for {
-					u, ok := cond.(*ssa.UnOp)
-					if !ok || u.Op != token.NOT {
-						break
+				helpers[g] = call
+			}
+			for g := range multi {
+				delete(helpers, g)
+			}
+			translate := func(g *ssa.Function, atoms []string) []string {
+				call, ok := helpers[g]
+				if !ok {
+					return atoms
+				}
+				out := make([]string, 0, len(atoms))
+				for _, a := range atoms {
+					t := a
+					pre := ""
+					if strings.HasPrefix(t, "len:") {
+						pre, t = "len:", t[4:]
 					}
-					cond = u.X
+					for i, prm := range g.Params {
+						if i >= len(call.Common().Args) {
+							break
+						}
+						if t == prm.Name() || strings.HasPrefix(t, prm.Name()+".") {
+							t = pathKey(call.Common().Args[i]) + t[len(prm.Name()):]
+							break
+						}
+					}
+					if pre == "len:" && t == pathKey(it.s.X) {
+						out = append(out, lenAtom)
+					} else {
+						out = append(out, pre+t)
+					}
 				}
-				bo, ok := cond.(*ssa.BinOp)
-				if !ok {
-					continue
+				return out
+			}
+			var siteFns []*ssa.Function
+			siteFns = append(siteFns, f)
+			for g := range helpers {
+				siteFns = append(siteFns, g)
+			}
+			sort.Slice(siteFns, func(i, j int) bool { return siteFns[i].Pos() < siteFns[j].Pos() })
+			for _, sf := range siteFns {
+				for _, b := range sf.Blocks {
+					iff, ok := b.Instrs[len(b.Instrs)-1].(*ssa.If)
+					if !ok {
+						continue
+					}
+					cond := iff.Cond
+					for {
+						u, ok := cond.(*ssa.UnOp)
+						if !ok || u.Op != token.NOT {
+							break
+						}
+						cond = u.X
+					}
+					if ph, isPhi := cond.(*ssa.Phi); isPhi {
+						for _, e := range ph.Edges {
+							if _, isK := e.(*ssa.Const); !isK {
+								cond = e
+							}
+						}
+					}
+					bo, ok := cond.(*ssa.BinOp)
+					if !ok {
+						continue
+					}
+					switch bo.Op {
+					case token.LSS, token.GTR, token.LEQ, token.GEQ, token.EQL, token.NEQ:
+					default:
+						continue
+					}
+					at := append(atomsOf(bo.X), atomsOf(bo.Y)...)
+					if sf != f {
+						at = translate(sf, at)
+					}
+					if len(at) < 2 || len(sites) >= 63 {
+						continue
+					}
+					siteOf[bo] = len(sites)
+					sites = append(sites, site{at})
 				}
-				switch bo.Op {
-				case token.LSS, token.GTR, token.LEQ, token.GEQ, token.EQL, token.NEQ:
-				default:
-					continue
-				}
-				at := append(atomsOf(bo.X), atomsOf(bo.Y)...)
-				if len(at) < 2 || len(sites) >= 63 {
-					continue
-				}
-				siteOf[bo] = len(sites)
-				sites = append(sites, site{at})
 			}
 			bAtoms := atomsOf(it.B)
+			if os.Getenv("VCHECK_DEBUG") != "" {
+				for i, st := range sites {
+					fmt.Fprintf(os.Stderr, "DBG T13 %s site %d atoms %v\n", f.Name(), i, st.atoms)
+				}
+				fmt.Fprintf(os.Stderr, "DBG T13 bAtoms %v helpers %d\n", bAtoms, len(helpers))
+			}
 			connected := func(s esp.State) (bool, string) {
 				parent := map[string]string{}
 				var find func(a string) string
@@ -695,12 +765,21 @@ func (c *Ctx) foreignBoundSliceRule(rule string, fns []*ssa.Function) int {
 			}
 			flagIdx := map[ssa.Value]int{}
 			r := &esp.Rule{Name: "T13"}
-			r.Relevant = func(*ssa.Function) bool { return false }
+			r.Relevant = func(g *ssa.Function) bool { _, ok := helpers[g]; return ok }
 			r.Flag = func(v ssa.Value) (int, bool) {
-				if v.Parent() != f || v.Type().String() != "bool" {
+				if v.Parent() == nil || v.Type().String() != "bool" {
 					return 0, false
 				}
-				if _, isPhi := v.(*ssa.Phi); !isPhi {
+				if _, isHelper := helpers[v.Parent()]; v.Parent() != f && !isHelper {
+					return 0, false
+				}
+				switch y := v.(type) {
+				case *ssa.Phi, *ssa.Parameter:
+				case *ssa.Call:
+					if _, isBuiltin := y.Call.Value.(*ssa.Builtin); isBuiltin {
+						return 0, false
+					}
+				default:
 					return 0, false
 				}
 				if i, ok := flagIdx[v]; ok {
@@ -725,6 +804,33 @@ func (c *Ctx) foreignBoundSliceRule(rule string, fns []*ssa.Function) int {
 						break
 					}
 					cond, taken = u.X, !taken
+				}
+				if ph, isPhi := cond.(*ssa.Phi); isPhi {
+					// `a && b` as a value (e.g. a tag-less switch case): φ(false from the block testing a, b).
+					// Its true edge means b was evaluated and true; its false edge means b false only if a
+					// is known true on this path.
+					var cmp ssa.Value
+					viaConst := false
+					for k, e := range ph.Edges {
+						if kc, isK := e.(*ssa.Const); isK {
+							if kc.Value != nil && kc.Value.Kind() == constant.Bool && !constant.BoolVal(kc.Value) {
+								pred := ph.Block().Preds[k]
+								if iff, ok := pred.Instrs[len(pred.Instrs)-1].(*ssa.If); ok && x.Eval(iff.Cond) == esp.NonZero && pred.Succs[1] == ph.Block() {
+									continue // this edge needs a to be false, but a is known true
+								}
+							}
+							viaConst = true
+							continue
+						}
+						if cmp != nil {
+							return s, ""
+						}
+						cmp = e
+					}
+					if cmp == nil || (viaConst && !taken) {
+						return s, ""
+					}
+					cond = cmp
 				}
 				i, ok := siteOf[cond]
 				if !ok {
